@@ -351,6 +351,9 @@ EXC_PARENT = {
     'GeneratorExit': 'BaseException',
     'StopIteration': 'Exception',
     'ArithmeticError': 'Exception',
+    'OverflowError': 'ArithmeticError',
+    'ZeroDivisionError': 'ArithmeticError',
+    'MemoryError': 'Exception',
     'AssertionError': 'Exception',
     'AttributeError': 'Exception',
     'EOFError': 'Exception',
@@ -367,6 +370,9 @@ EXC_PARENT = {
     'NotADirectoryError': 'OSError',
     'PermissionError': 'OSError',
     'InterruptedError': 'OSError',
+    'TimeoutError': 'OSError',
+    'BlockingIOError': 'OSError',
+    'BrokenPipeError': 'OSError',
     'shutil.Error': 'OSError',
     'RuntimeError': 'Exception',
     'NotImplementedError': 'RuntimeError',
